@@ -38,7 +38,8 @@ IsDeny(a) == a \in {2, 3}          \* egress drop / reject
 IsReject(a) == a = 3
 
 \* ---- classification of an incoming record r =
-\*   [key, sp, dp, sns, dns, ftype, egress, ingress, prio, start, end, vals, reason]
+\*   [key, sp, dp, sns, dns, ftype, egress, ingress, prio, cip, start, end, vals, reason]
+\*   (cip: destinationClusterIPv4 as four bytes; 0.0.0.0 is the empty value)
 NeedsCorrelation(r) == r.ftype = InterNode /\ ~IsDeny(r.egress) /\ ~IsReject(r.ingress)
 FromSrc(sp, dp) == sp # "" /\ dp = ""
 FromDst(sp, dp) == dp # "" /\ sp = ""
@@ -61,7 +62,7 @@ Tput(tot, dt) == IF dt > 0 THEN (8 * tot) \div dt ELSE 0
 \* first record of a flow: the record itself becomes the aggregate; per-node fields are seeded
 NewFlow(r, fs, fd) ==
   [ sp |-> r.sp, dp |-> r.dp, sns |-> r.sns, dns |-> r.dns,
-    ftype |-> r.ftype, egress |-> r.egress, ingress |-> r.ingress, prio |-> r.prio,
+    ftype |-> r.ftype, egress |-> r.egress, ingress |-> r.ingress, prio |-> r.prio, cip |-> r.cip,
     start |-> r.start, end |-> r.end,
     endS |-> IF fs THEN r.end ELSE 0, endD |-> IF fd THEN r.end ELSE 0,
     com |-> r.vals,
@@ -106,7 +107,8 @@ Correlate(f, r) ==
   [f EXCEPT !.sp = IF r.sp # "" THEN r.sp ELSE @, !.dp = IF r.dp # "" THEN r.dp ELSE @,
             !.sns = IF r.sns # "" THEN r.sns ELSE @, !.dns = IF r.dns # "" THEN r.dns ELSE @,
             !.egress = IF r.egress # 0 THEN r.egress ELSE @, !.ingress = IF r.ingress # 0 THEN r.ingress ELSE @,
-            !.prio = IF r.prio # 0 THEN r.prio ELSE @]
+            !.prio = IF r.prio # 0 THEN r.prio ELSE @,
+            !.cip = IF r.cip # <<0, 0, 0, 0>> THEN r.cip ELSE @]
 
 ---------------------------------------------------------------------------
 (* History for the declarative statement of C05.  Per key:                 *)
